@@ -14,7 +14,7 @@ from simkit import gen, launch, pipe
 from simkit.kernel import EventLog, Forks, RunStats, Scratch, Violation, digest, sub_rng
 
 SPEC = {
-    "C17": dict(engine="samplesim", level="exploration", runs=dict(quick=400, thorough=8000), chunk=4,
+    "C17": dict(engine="samplesim", level="exploration", runs=dict(quick=400, thorough=4000), chunk=4,
                 rule="per run: 6 stepper-harness configurations (burn-in 0-40, thin 1-9, n 1-15, seeds, 1-6 chains, MCMC or VI, "
                      "model.dirty fault) whose event history and generator fingerprint (first 1024 raw 64-bit outputs) are judged, "
                      "plus, in a sampled share, real train_model processes for every chain index launched in a seeded order under "
@@ -44,7 +44,7 @@ def gen_plan(prop, run_seed, tier):
     n_chains = w.randint(1, 6) if w.random() < 0.93 else w.choice([17, 33, 129])
     cfgs = []
     for k in range(6):
-        cfgs.append(dict(kind=w.choice(["mcmc"] * 4 + ["vi"]), b=w.choice([0, 0, 1, 2, 7, 40, 129, 129, w.choice([1000, 1001, 2049, 4097])]), t=w.choice([1, 1, 2, 3, 9, 33]),
+        cfgs.append(dict(kind=w.choice(["mcmc"] * 4 + ["vi"]), b=w.choice([0, 0, 1, 2, 7, 40, 129, 129, w.choice([1000, 1001, 2049, 4097])]), t=w.choice([1, 1, 2, 3, 9, 33, w.choice([256, 257, 300, 1000])]),
                          # sizes beyond any plausible block or cap (32, 64, 100, 256, 1000, 1024) in one run out of seven
                          n=w.choice([1, 2, 3, 10, 15, 10, 3, w.choice([33, 65, 101, 257, 300, 1001, 1025])]), seed=base_seed if k < 4 else w.randrange(2**32), n_chains=n_chains,
                          chain_index=w.randrange(n_chains), dirty=w.random() < 0.4, entropy=s.randrange(2**31),
